@@ -215,6 +215,25 @@ theorem roundtrip_same_document_rootless_partial (G : Grammar) (ok : Lemmas.Gram
     ∃ r t, Ref.relative_to a b = some r ∧ Ref.resolve r b = some t ∧ key t = key a :=
   Lemmas.relative_roundtrip_samedoc_rootless G ok okp oka we a b ha hb hsch haa hab hpa hpb hhA hhB hne hcls hsd
 
+/-- … and when the target's path is empty (`s:?q` relative to `s:a/b` is `..?q`) -/
+theorem roundtrip_empty_rootless_partial (G : Grammar) (ok : Lemmas.Grammar.Ok G) (okp : Lemmas.Grammar.OkPath G)
+    (oka : Lemmas.Grammar.OkAuth G) (we : Lemmas.Grammar.OkWE G) (a b : Text)
+    (ha : RE.Matches G.full a) (hb : RE.Matches G.full b)
+    (hsch : (split a).scheme = (split b).scheme)
+    (haa : (split a).authority = none) (hab : (split b).authority = none)
+    (hpa : isAbs (split a).path = false) (hpb : isAbs (split b).path = false)
+    (hhB : ((nsegs (Path.parent_or_empty (split b).path)).head? == some [cDot, cDot]) = false)
+    (hroot : nsegs (split a).path = [])
+    (hbelow : nsegs (Path.parent_or_empty (split b).path) ≠ [])
+    (hnsp : Lemmas.sdCond a b = false) :
+    ∃ r t, Ref.relative_to a b = some r ∧ Ref.resolve r b = some t ∧ key t = key a :=
+  Lemmas.relative_roundtrip_empty_rootless G ok okp oka we a b ha hb hsch haa hab hpa hpb hhB hroot hbelow hnsp
+
+/-- non-vacuity: `s:?q` relative to `s:a/b` is `..?q`, which resolves to `s:?q` -/
+example : Ref.relative_to [0x73,0x3A,0x3F,0x71] [0x73,0x3A,0x61,0x2F,0x62] = some [0x2E,0x2E,0x3F,0x71] ∧
+    Ref.resolve [0x2E,0x2E,0x3F,0x71] [0x73,0x3A,0x61,0x2F,0x62] = some [0x73,0x3A,0x3F,0x71] ∧
+    Model.relCls [0x73,0x3A,0x3F,0x71] [0x73,0x3A,0x61,0x2F,0x62] = .root := by decide
+
 /-- **the round trip when the target is the root** and the base lies below it (`https://crates.io/`
 relative to `https://crates.io/crates/iref` is `..`): the reference is `..` repeated -/
 theorem roundtrip_root_partial (G : Grammar) (ok : Lemmas.Grammar.Ok G) (okp : Lemmas.Grammar.OkPath G)
@@ -492,13 +511,28 @@ theorem roundtrip_classified (G : Grammar) (ok : Lemmas.Grammar.Ok G) (okp : Lem
       simp only [Bool.and_eq_true, Option.isNone_iff_eq_none, Bool.not_eq_true'] at hR
       obtain ⟨⟨⟨haa, hab⟩, hpa⟩, hpb⟩ := hR
       by_cases hbad : ((nsegs (split a).path).head? == some [cDot, cDot]
-          || (nsegs (Path.parent_or_empty (split b).path)).head? == some [cDot, cDot]
-          || nsegs (split a).path == [] || Model.skipEmpty a b) = true
+          || (nsegs (Path.parent_or_empty (split b).path)).head? == some [cDot, cDot]) = true
       · rw [if_pos hbad] at hc; exact absurd hc (by decide)
-      · rw [if_neg hbad] at hc
-        have hbad' := Bool.eq_false_iff.mpr hbad
-        simp only [Bool.or_eq_false_iff] at hbad'
-        obtain ⟨⟨⟨h1, h2⟩, h3⟩, h4⟩ := hbad'
+      rw [if_neg hbad] at hc
+      have hbad' := Bool.eq_false_iff.mpr hbad
+      simp only [Bool.or_eq_false_iff] at hbad'
+      obtain ⟨h1, h2⟩ := hbad'
+      by_cases hroot : (nsegs (split a).path == []) = true
+      · -- the target's path is empty
+        have hroot' : nsegs (split a).path = [] := by simpa using hroot
+        simp only [hroot, if_true] at hc
+        by_cases hb2 : (nsegs (Path.parent_or_empty (split b).path) == [] || Lemmas.sdCond a b) = true
+        · rw [if_pos hb2] at hc; exact absurd hc (by decide)
+        · have hb2' := Bool.eq_false_iff.mpr hb2
+          simp only [Bool.or_eq_false_iff] at hb2'
+          exact roundtrip_empty_rootless_partial G ok okp oka we a b ha hb hsch haa hab hpa hpb h2 hroot'
+            (by simpa using hb2'.1) hb2'.2
+      have h3 := Bool.eq_false_iff.mpr hroot
+      simp only [h3, Bool.false_eq_true, if_false] at hc
+      by_cases hsk : Model.skipEmpty a b = true
+      · simp [hsk, Model.RelCls.covered] at hc
+      · have h4 : Model.skipEmpty a b = false := Bool.eq_false_iff.mpr hsk
+        simp only [h4, Bool.false_eq_true, if_false] at hc
         by_cases hsd : Lemmas.sdCond a b = true
         · exact roundtrip_same_document_rootless_partial G ok okp oka we a b ha hb hsch haa hab hpa hpb h1 h2
             (by simpa using h3) h4 hsd
